@@ -453,11 +453,25 @@ func genC13(r *world.Rng, w *world.World, big bool) {
 		if len(cl) > 10 {
 			cl = cl[:10]
 		}
+		if r.Bool(0.03) {
+			// a problem without variables is well formed too: no clause at all, or only empty clauses
+			n, cl = 0, [][]int{}
+			if r.Bool(0.4) {
+				cl = [][]int{{}}
+			}
+		}
 		t = world.TaskSpec{Kind: "parse", Entry: "solver.ParseCNF", N: n, Clauses: cl, Text: dimacsText(r, n, cl, false)}
 	case 1:
 		n, cl := cnfInstance(r, 8, true)
 		if len(cl) > 10 {
 			cl = cl[:10]
+		}
+		if r.Bool(0.03) {
+			// a problem without variables is well formed too: no clause at all, or only empty clauses
+			n, cl = 0, [][]int{}
+			if r.Bool(0.4) {
+				cl = [][]int{{}}
+			}
 		}
 		t = world.TaskSpec{Kind: "parse", Entry: "explain.ParseCNF", N: n, Clauses: cl, Text: dimacsText(r, n, cl, true)}
 	case 2:
